@@ -1,11 +1,40 @@
 (** C04 — Only allowlisted hashes and digest sizes enter or leave the block service.
     ONLY the property theorems, each closed by [exact] of a lemma of proofs/P_C04.v.
-    Models: model/M_C04.v (verifcid) and lib/BlockSvc.v (blockservice.go), tied to the code by
-    the correspondence check of ./check C04. *)
+    Models: gen/Gen_C04.v (defaultAllowlist.IsAllowed/MinDigestSize/MaxDigestSize, re-translated
+    from verifcid/allowlist.go by tools/go2coq on every run), model/M_C04.v (allowlist,
+    ValidateCid) and lib/BlockSvc.v (blockservice.go), the hand-written ones tied to the code by
+    the correspondence check of ./check C04.
+    [is_allowed]/[min_digest]/[max_digest]/[validate] are the MODEL of the code (default allowlist =
+    translated Go); [sp_allowed]/[sp_min]/[sp_max] are the SPECIFICATION (default allowlist = the
+    explicit table [default_is_allowed], 0/20 and 128). *)
 From Coq Require Import List ZArith Bool NArith.
-From V Require Import lib.Verdict lib.BlockSvc model.M_C04 proofs.P_C04.
+From V Require Import lib.Verdict lib.BlockSvc gen.Gen_C04 model.M_C04 proofs.P_C04.
 Import ListNotations.
 Open Scope Z_scope.
+
+(** The functions translated from Go are the table: 15 codes and blake2b-160..512,
+    blake2s-160..256 (adding or removing a code in Go changes a proved statement); identity has
+    minimum 0, everything else 20; the maximum is 128 throughout. *)
+Theorem C04_default_table : forall code,
+  defaultAllowlist_IsAllowed code = true <->
+  In code [0x12; 0x13; 0x19; 0x56; 0x1e; 0x00; 0x17; 0x16; 0x15; 0x14; 0x1a; 0x1b; 0x1c; 0x1d; 0x11]
+  \/ 0xb214 <= code <= 0xb240 \/ 0xb254 <= code <= 0xb260.
+Proof. exact default_table. Qed.
+Print Assumptions C04_default_table.
+
+Theorem C04_default_sizes_translated : forall code,
+  defaultAllowlist_MinDigestSize code = (if code =? 0 then 0 else 20) /\
+  defaultAllowlist_MaxDigestSize code = 128.
+Proof. exact default_sizes_translated. Qed.
+Print Assumptions C04_default_sizes_translated.
+
+(** Model = specification for every allowlist: the implementation's notion of allowed / minimum /
+    maximum (with the translated default allowlist at the leaves) is the specified one. *)
+Theorem C04_allowlist_model_is_spec : forall al code,
+  is_allowed al code = sp_allowed al code /\ min_digest al code = sp_min al code /\
+  max_digest al code = sp_max al code.
+Proof. intros al code. exact (conj (is_allowed_sp al code) (conj (min_digest_sp al code) (max_digest_sp al code))). Qed.
+Print Assumptions C04_allowlist_model_is_spec.
 
 (** The validator accepts a CID exactly when its hash function is allowed by the configured
     allowlist and its digest length lies within that function's minimum and maximum — for every
@@ -13,27 +42,32 @@ Open Scope Z_scope.
     allowlist. *)
 Theorem C04_validate_iff : forall al code len,
   validate al code len = EOk <->
-  is_allowed al code = true /\ min_digest al code <= len <= max_digest al code.
+  sp_allowed al code = true /\ sp_min al code <= len <= sp_max al code.
 Proof. exact validate_ok_iff. Qed.
 Print Assumptions C04_validate_iff.
 
 (** ... and which of the three rejections is reported. *)
 Theorem C04_validate_classes : forall al code len,
-  (validate al code len = EInsecure <-> is_allowed al code = false) /\
-  (validate al code len = ETooSmall <-> is_allowed al code = true /\ len < min_digest al code) /\
+  (validate al code len = EInsecure <-> sp_allowed al code = false) /\
+  (validate al code len = ETooSmall <-> sp_allowed al code = true /\ len < sp_min al code) /\
   (validate al code len = ETooLarge <->
-     is_allowed al code = true /\ min_digest al code <= len /\ max_digest al code < len).
+     sp_allowed al code = true /\ sp_min al code <= len /\ sp_max al code < len).
 Proof. exact validate_classes. Qed.
 Print Assumptions C04_validate_classes.
 
-(** The default allowlist is exactly this table (adding or removing a code in Go changes a
-    proved statement): 15 codes and blake2b-160..512, blake2s-160..256. *)
-Theorem C04_default_table : forall code,
-  is_allowed ADefault code = true <->
-  In code [0x12; 0x13; 0x19; 0x56; 0x1e; 0x00; 0x17; 0x16; 0x15; 0x14; 0x1a; 0x1b; 0x1c; 0x1d; 0x11]
-  \/ 0xb214 <= code <= 0xb240 \/ 0xb254 <= code <= 0xb260.
-Proof. exact default_table. Qed.
-Print Assumptions C04_default_table.
+(** An overriding allowlist decides by its own allowset where that has an entry (true or false)
+    and by the override elsewhere (nothing is allowed without one); the size limits always come
+    from the override, or from the default allowlist when there is none. *)
+Theorem C04_override : forall ov m code,
+  sp_allowed (ACustom ov m) code =
+    match assoc code m with
+    | Some g => g
+    | None => match ov with Some o => sp_allowed o code | None => false end
+    end /\
+  sp_min (ACustom ov m) code = match ov with Some o => sp_min o code | None => default_min code end /\
+  sp_max (ACustom ov m) code = match ov with Some o => sp_max o code | None => default_max code end.
+Proof. intros ov m code. destruct ov; repeat split; reflexivity. Qed.
+Print Assumptions C04_override.
 
 (** Identity hashes are exempt from the minimum but capped at 128 bytes; every other hash of the
     default allowlist needs 20..128 bytes. *)
@@ -43,7 +77,7 @@ Proof. exact identity_exempt_capped. Qed.
 Print Assumptions C04_identity_exempt_capped.
 
 Theorem C04_default_sizes : forall code len, code <> 0 ->
-  (validate ADefault code len = EOk <-> is_allowed ADefault code = true /\ 20 <= len <= 128).
+  (validate ADefault code len = EOk <-> defaultAllowlist_IsAllowed code = true /\ 20 <= len <= 128).
 Proof. exact default_sizes. Qed.
 Print Assumptions C04_default_sizes.
 
@@ -70,6 +104,14 @@ Theorem C04_store_clean : forall al checkfirst ex fl h s,
   store_clean al s' = true /\ all_steps_clean al h rs = true.
 Proof. intros al checkfirst ex fl h s Hfl Hs. exact (run_clean al checkfirst ex fl Hfl h s Hs). Qed.
 Print Assumptions C04_store_clean.
+
+(** The hypothesis is necessary: a block service that hands on what the exchange answers
+    (the code before fix C05-1) ends up with a rejected CID in its blockstore. *)
+Theorem C04_needs_request_check :
+  let fl := {| trust_cid := true; trust_hash := true |} in
+  exists h, store_clean ADefault (fst (run (validate ADefault) true XPlain fl [] h)) = false.
+Proof. exact trusting_not_clean. Qed.
+Print Assumptions C04_needs_request_check.
 
 (** Non-vacuity: the empty store is clean; a hostile history under the default allowlist.
     sha2-256/32 is accepted, md5/16 rejected.  The exchange answers a batch request for the valid
